@@ -359,6 +359,15 @@ func c09Pairing(c *Check, sp *ssa.Package) []string {
 								}
 							}
 						}
+						// the decoder selected as a function value (returned or stored, called later)
+						for _, fv := range funcValueOperands(ins) {
+							if o, ok := fv.Object().(*types.Func); ok && strings.HasPrefix(o.Name(), "Unmarshal") {
+								if k := codecOf(o); k != "" {
+									codec = k
+									return
+								}
+							}
+						}
 					}
 					for _, s := range bb.Succs {
 						if br.TrueSucc.Dominates(s) {
